@@ -16,6 +16,9 @@ from ..pyvc.values import KINDS
 from ..models import tokens as T
 
 VERIF = os.path.dirname(os.path.dirname(os.path.dirname(os.path.abspath(__file__))))
+# where evidence/ and replays/ are written: /verif unless VERIF_OUT is set (used by
+# tools/try_seeds.sh so that trial runs on seeded trees never touch the committed evidence)
+OUT = os.environ.get("VERIF_OUT") or VERIF
 NATIVE_PY = "/venv/bin/python"
 
 PY_ASSUMPTIONS = [
@@ -64,8 +67,8 @@ class Check:
         self.timeout_ms = 20000 if tier == "quick" else 120000
         self.defer = False            # child process: collect failures, the parent reports them
         self.pending = []
-        os.makedirs(os.path.join(VERIF, "replays"), exist_ok=True)
-        os.makedirs(os.path.join(VERIF, "evidence"), exist_ok=True)
+        os.makedirs(os.path.join(OUT, "replays"), exist_ok=True)
+        os.makedirs(os.path.join(OUT, "evidence"), exist_ok=True)
 
     # ------------------------------------------------------------------ engines
     def engine(self):
@@ -143,6 +146,11 @@ class Check:
                 detail["clause"] = obs[0].meta["ensures"]
             if obs[0].meta.get("invariant"):
                 detail["clause"] = obs[0].meta["invariant"]
+            if obs[0].kind == "frame" and "modifies" in obs[0].meta:
+                detail["modifies"] = obs[0].meta["modifies"]
+                w = sorted({x for o in obs for x in o.meta.get("writes_outside_modifies", [])})
+                if w:
+                    detail["writes_outside_modifies"] = w
             if failed:
                 status = "failed"
                 self.handle_failed(contract, base, failed[0], replay, detail)
@@ -165,7 +173,9 @@ class Check:
         detail["model"] = model_txt[:1500]
         rp = {"property": self.pid, "obligation": ob.name, "function": contract.key,
               "clause": ob.meta.get("ensures") or ob.meta.get("invariant") or ob.meta.get("when")
-              or ob.meta.get("exception"),
+              or ob.meta.get("exception")
+              or (f"the body writes outside its modifies clause {ob.meta.get('modifies')}: "
+                  f"{ob.meta.get('writes_outside_modifies')}" if ob.meta.get("writes_outside_modifies") else None),
               "verifier_output": {"result": "sat (obligation refuted)", "model": model_txt[:6000]},
               "repo": repo_root()}
         if self.defer:
@@ -261,7 +271,7 @@ class Check:
                 self.known_printed.append(line)
             return
         idx = len(self.violations)
-        path = os.path.join(VERIF, "replays", f"{self.pid}_{idx}_{safe(base)}.json")
+        path = os.path.join(OUT, "replays", f"{self.pid}_{idx}_{safe(base)}.json")
         with open(path, "w") as fh:
             json.dump(rp, fh, indent=1, default=str)
         tail = "" if confirmed else " no-failing-input-found"
@@ -338,7 +348,7 @@ class Check:
             "wall_s": round(time.time() - self.t0, 2),
             "violations": len(self.violations),
         }
-        path = os.path.join(VERIF, "evidence", f"{self.pid}.json")
+        path = os.path.join(OUT, "evidence", f"{self.pid}.json")
         with open(path, "w") as fh:
             json.dump(ev, fh, indent=1, default=str)
         print(f"{self.pid}: level={level} obligations={n_ob} discharged={n_dis} "
